@@ -36,6 +36,7 @@ pub enum RegMem {
 #[derive(Clone, Copy, PartialEq)]
 pub enum JmpPred {
     Below = 0x02,
+    Less = 0x0c,
     Equal = 0x04,
     NotEqual = 0x05,
 }
